@@ -1,4 +1,4 @@
-"""Validation of the C18 check: re-introduce the two repaired defects and 19 hand-made mutations in a scratch copy of /repo\n(never in /repo), run `ONL_REPO=<copy> ./check C18` on each and print how it was caught.  Usage: /venv/bin/python harness/c18_mutants.py [indices]"""
+"""Validation of the C18 check: re-introduce the four repaired defects and 19 hand-made mutations in a scratch copy of /repo\n(never in /repo), run `ONL_REPO=<copy> ./check C18` on each and print how it was caught.  Usage: /venv/bin/python harness/c18_mutants.py [indices]"""
 import subprocess, shutil, os, json, sys, re
 VERIF=os.path.dirname(os.path.dirname(os.path.abspath(__file__)))
 MUT=os.path.join(os.environ.get('TMPDIR','/tmp'),'onl_repo_mut_c18')
@@ -16,6 +16,8 @@ def revert(commit):
 MUTS=[
  ('revert 34948b5 (FIBDemux refuses empty table)', lambda: revert('34948b5')),
  ('revert 337a357 (Hub without ports)', lambda: revert('337a357')),
+ ('revert 1c1e5d4 (FIBDemux without output devices: AssertionError)', lambda: revert('1c1e5d4')),
+ ('revert 194df48 (copies share perhop_time / priorities)', lambda: revert('194df48')),
  ('FlowDemux < -> <=', lambda: sub('onl/netdev/demux.py','if flow_id < len(self.outs):','if flow_id <= len(self.outs):')),
  ('FlowDemux ignores default_out', lambda: sub('onl/netdev/demux.py','            if self.default_out:\n                self.default_out.put(packet)\n\n\nclass RandomDemux','            pass\n\n\nclass RandomDemux')),
  ('FIBDemux checks fib before ends', lambda: sub('onl/netdev/demux.py',"""        if flow_id in self.ends:
